@@ -126,6 +126,8 @@ def ast_text_ops(text):
         stack[-1][1]["children"].append(node)
         stack.append((depth, node))
     ops = []
+    params = {}     # function address -> addresses (after aliasing) of its named parameters by index, None = unnamed
+    alias = {}      # address of a parameter of a later declaration -> address of the earlier declaration's parameter
 
     def emit(n, fn):
         k, rest = n["kind"], n.get("rest", "")
@@ -133,15 +135,31 @@ def ast_text_ops(text):
         if k in _DECL_KINDS:
             body = rest.split("> ", 1)[1] if "> " in rest else rest      # after the source range
             m = re.search(r"(\S+) '", body)
-            if m and re.match(r"^[A-Za-z_]\w*$", m.group(1)) and "implicit" not in body.split("'")[0].split()[:-1]:   # markers stand before the name
+            named = bool(m and re.match(r"^[A-Za-z_]\w*$", m.group(1)))
+            if named and "implicit" not in body.split("'")[0].split()[:-1]:   # markers stand before the name
                 op = {"op": _DECL_KINDS[k], "addr": n["addr"], "name": m.group(1), "kind": k, "param_of": fn[0] if (k == "ParmVarDecl" and fn) else None,
                       "param_of_redecl": bool(k == "ParmVarDecl" and fn and fn[1])}
                 if _DECL_KINDS[k] == "F":
-                    fn = (m.group(1), bool(re.match(r"^(?:parent 0x[0-9a-f]+ )?prev 0x[0-9a-f]+ ", rest)))
+                    pm = re.match(r"^(?:parent 0x[0-9a-f]+ )?prev (0x[0-9a-f]+) ", rest)
+                    fn = (m.group(1), pm.group(1) if pm else None, n["addr"])
+                    params[n["addr"]] = []
+            if k == "ParmVarDecl" and fn:
+                idx = len(params[fn[2]])
+                mine = n["addr"] if op else None
+                if fn[1] and op:
+                    # a later declaration of the function: its parameter IS the parameter with the same index of the
+                    # earlier declaration (when that one is named) - a reference, not a new variable
+                    earlier = params.get(fn[1], [])
+                    if idx < len(earlier) and earlier[idx]:
+                        alias[n["addr"]] = earlier[idx]
+                        mine = earlier[idx]
+                        op = {"op": "R", "addr": earlier[idx], "name": op["name"], "kind": k, "tkind": "ParmVar", "param_of": fn[0], "param_of_redecl": True}
+                params[fn[2]].append(mine)
         elif k == "DeclRefExpr":
             m = re.search(r" (Var|ParmVar|Function|EnumConstant|CXXMethod|Field) (0x[0-9a-f]+) '([^']+)'", rest)
             if m:
-                op = {"op": "R", "addr": m.group(2), "name": m.group(3), "kind": k, "tkind": m.group(1)}
+                op = {"op": "R", "addr": alias.get(m.group(2), m.group(2)), "name": m.group(3), "kind": k, "tkind": m.group(1),
+                      "param_of_redecl": m.group(2) in alias}
         elif k == "MemberExpr":
             m = re.search(r" (?:->|\.)(\w+) (0x[0-9a-f]+)", rest)
             if m:
@@ -345,7 +363,7 @@ def check(run, replay):
             run.extra["import_text_tokens_compared"] = run.extra.get("import_text_tokens_compared", 0) + ncmp
             for i, o, what in diffs:
                 decl_op = o if o["op"] == "V" else next((p for p in ops if p["op"] == "V" and p["addr"] == o["addr"]), {})
-                if decl_op.get("param_of_redecl"):
+                if o.get("param_of_redecl") or decl_op.get("param_of_redecl"):
                     run.violation("e2e-unlinked-param-of-redeclared-function", "parseClangAstDump: parameter '%s' of a function that was declared before: %s" % (o["name"], what), {"ast_text": t})
                 elif decl_op.get("param_of") == "prev":
                     run.violation("e2e-unlinked-param-of-function-named-prev", "parseClangAstDump: parameter '%s' of a function named `prev`: %s" % (o["name"], what), {"ast_text": t})
